@@ -16,12 +16,13 @@ Body == {<<>>, <<[k |-> "item"]>>, <<[k |-> "text", n |-> 5], [k |-> "item"], [k
          <<[k |-> "first"], [k |-> "item"], [k |-> "last"]>>}
 Branch == {<<>>, <<[k |-> "text", n |-> 6]>>, <<[k |-> "var", v |-> "b"]>>, <<[k |-> "opt", v |-> "a"]>>}
 Simple == {[k |-> "text", n |-> 7]} \cup {[k |-> "var", v |-> v] : v \in {"a", "b"}} \cup {[k |-> "opt", v |-> v] : v \in {"a", "b"}}
-          \cup {[k |-> "def", v |-> v, d |-> <<T(8)>>] : v \in {"a", "b"}}
+          \cup {[k |-> "def", v |-> v, d |-> <<T(n)>>] : v \in {"a", "b"}, n \in {8, 4}}      \* T(8): a default with spaces and backslashes; T(4): a single word (it shares its pattern with filters)
           \cup {[k |-> "filt", v |-> "a", f |-> f] : f \in {"upper", "trim"}} \cup {[k |-> "filt", v |-> "b", f |-> "lower"]}
 Blocks == {[k |-> "if", v |-> v, th |-> th, el |-> el] : v \in {"a", "b"}, th \in Branch, el \in Branch}
           \cup {[k |-> "each", body |-> b] : b \in Body} \cup {[k |-> "inc", t |-> t] : t \in {"t1", "t2", "nope"}}
 Tokens == Simple \cup Blocks
 Core == Simple \cup {[k |-> "if", v |-> "a", th |-> <<[k |-> "var", v |-> "b"]>>, el |-> <<[k |-> "text", n |-> 6]>>],
+                     [k |-> "if", v |-> "b", th |-> <<[k |-> "text", n |-> 6]>>, el |-> <<>>], [k |-> "if", v |-> "a", th |-> <<[k |-> "opt", v |-> "a"]>>, el |-> <<>>],
                      [k |-> "each", body |-> <<[k |-> "text", n |-> 5], [k |-> "item"], [k |-> "index"]>>], [k |-> "each", body |-> <<[k |-> "var", v |-> "a"]>>],
                      [k |-> "inc", t |-> "t1"], [k |-> "inc", t |-> "nope"]}
 Templates == IF Mode = "full" THEN UNION {[1..n -> Tokens] : n \in 1..2}
